@@ -2,4 +2,5 @@ let () =
   match Array.to_list Sys.argv with
   | _ :: "c09" :: file :: _ -> C09.run file
   | _ :: ("c04" | "c07" | "c12" as m) :: file :: _ -> C04.run m file
+  | _ :: "c05" :: file :: _ -> C05.run file
   | _ -> prerr_endline "usage: oracle <property> <trace>"; exit 2
